@@ -175,6 +175,53 @@ def make_h_history(nsteps, quick=False, tiny=False):
     return h
 
 
+def h_orchestrator_history(ctx):
+    """The Orchestrator's own public calls (lint_file, lint_files, lint_directory) on one long-lived object, and a NEW
+    object created after the project's ignore list changed: the last call returns what a pristine process returns."""
+    import src.linter_config.ignore as ign
+    from src.orchestrator.core import Orchestrator
+    d = _mk("memory")
+    try:
+        ign.clear_ignore_parser_cache()
+        o = Orchestrator(project_root=d)
+        trace = []
+        for step in range(2):
+            op = ctx.pick(f"op{step}", ("lint_file", "lint_files", "lint_directory", "edit", "new-object-after-ignore-list-change", "stop"))
+            if op == "stop":
+                break
+            if op == "lint_file":
+                f = ctx.pick(f"file{step}", ("call_a.py", "dup1.py", "strg1.py", "const_a.py"))
+                o.lint_file(d / "src" / f)
+                op += ":" + f
+            elif op == "lint_files":
+                o.lint_files([d / "src" / n for n in ("dup1.py", "dup2.py", "call_a.py")])
+            elif op == "lint_directory":
+                o.lint_directory(d / "src")
+            elif op == "edit":
+                f = ctx.pick(f"file{step}", ("dup2.py", "strg3.py"))
+                (d / "src" / f).write_text(VARIANTS[f])
+                op += ":" + f
+            else:
+                # the project gets a repository ignore file and the caller builds a new object (same process)
+                (d / ".thailintignore").write_text("src/magic.py\nsrc/call_b.py\n")
+                o = Orchestrator(project_root=d)
+            trace.append(op)
+        last = ctx.pick("last_call", ("lint_directory", "lint_files-all"))
+        files = sorted(p for p in (d / "src").iterdir() if p.is_file())
+        got_v = o.lint_directory(d / "src") if last == "lint_directory" else o.lint_files(files)
+        got = Counter(_key(v, d) for v in got_v)
+        ignored = (d / ".thailintignore").read_text().split() if (d / ".thailintignore").exists() else []
+        state = {n: t for n, t in _state(d).items() if ("src/" + n) not in ignored}
+        pristine = fresh_reference(state, (d / ".thailint.yaml").read_text(), "files", sorted(state))
+    finally:
+        shutil.rmtree(d, True)
+        ign.clear_ignore_parser_cache()
+    ctx.note("trace", trace)
+    ctx.cover("same" if got == pristine else "different")
+    ctx.require("equals-run-in-a-pristine-process", got == pristine, trace=trace, last=last,
+                only_here=[list(k)[:3] for k in list(got - pristine)[:4]], only_pristine=[list(k)[:3] for k in list(pristine - got)[:4]])
+
+
 def h_order(ctx):
     import src.linter_config.ignore as ign
     from src.orchestrator.core import Orchestrator
@@ -278,6 +325,10 @@ def obligations(tier):
            bounds="forked: operation sequences of length <= %d over {lint directory, lint one of 4 files, edit one of 4 files to a finding-free variant, delete one of 3 files, add a file with a duplicate} "
                   "on one long-lived Linter, followed by a final directory lint compared with a fresh Linter; both DRY storage modes in the thorough tier" % n,
            timeout=900 if tier == "quick" else 3400, workers=14, must_cover=("same",)),
+        Ob(name="K1o-orchestrator-calls-and-new-objects", engine="pathex", harness=h_orchestrator_history,
+           functions=["Orchestrator.lint_file / lint_files / lint_directory on one object", "Orchestrator.__init__ after the ignore list changed", "get_ignore_parser cache", "cross-file rules' state between calls"],
+           bounds="forked: up to 2 operations from {lint_file(one of 4 files), lint_files(3 files), lint_directory, edit one of 2 files, new object after a .thailintignore appeared} then lint_directory or lint_files(all)",
+           timeout=600, workers=14, must_cover=("same",)),
         Ob(name="K2-file-order-and-repetition", engine="pathex", harness=h_order,
            functions=["Orchestrator.lint_files", "cross-file rules' storage queries (ORDER BY / dedup)", "per-analyzer state carried from file to file"],
            bounds="forked: all 24 orders of four files (the duplicate / string-set files, or three files with similar constant names + one) x rest reversed or not (all project files incl. cross-file duplicates, repeated string sets and a pair of files whose findings depend on analyzer state)",
